@@ -336,8 +336,6 @@ def signature(case, verdict, failed):
     generic = f"{case['op']}:k{case['k']}:{case['kind']}:{'re:' if case.get('re') else ''}{'/'.join(sorted(failed))}"
     if not verdict.get("agree"):
         return generic
-    if "crash:min-empty" in t:
-        return "nonuniform:min-of-empty-inds" if "crash-op:nonuniform" in t else generic
     empty_sizes = (case["op"] == "unequal" and case.get("sizes") == []) or \
                   bool(case.get("re") and case["re"]["op"] == "unequal" and case["re"].get("sizes") == [])
     if empty_sizes:
